@@ -797,6 +797,7 @@ func buildScanner(repo string) *scanModel {
 		fmt.Fprintf(&b, "  | %s => %d\n", e, i)
 	}
 	b.WriteString("  end.\n\n")
+	b.WriteString("Definition all_evts : list evt :=\n  [" + strings.Join(evts, "; ") + "].\n\n")
 	b.WriteString("Definition evt_of_idx (n : N) : evt :=\n  match n with\n")
 	for i, e := range evts {
 		fmt.Fprintf(&b, "  | %d => %s\n", i, e)
